@@ -16,6 +16,7 @@ LEVEL_TEXT = (
     "user code are created only through Function.create_task; task.executor rejects coroutine and pyscript functions"
     "; done callbacks that add/remove callbacks or claim names do not disturb the others; task.cancel hands a task to the reaper only once its wrapper registered it; the reaper and waiter loops survive a failing command"
     '; run_coro is only the outermost coroutine of a task made for it; every run (trigger, service, task.create) is started with its evaluator; bound methods compare by (function, instance); a raising done callback is reported once and stops nothing'
+    "; done callbacks run on the run's own evaluator; awaits of tasks that may end cancelled do not end the service loops nor the caller of a service; a task cancelled during its done callbacks still runs the rest; the run's context is stored by its own task; re-registration replaces the arguments; legacy shutdown runs have a callback table"
 )
 LEVEL_NOTE = (
     "assumes every await may be cancelled and every non-reviewed call may raise; the raw task-creation sites listed in the "
